@@ -202,6 +202,13 @@ func computeCentroid(vertices [][]float64, centroid []float64) {
 
 func (n *NelderMead) iterateLocal(loc *Location) (Operation, error) {
 	dim := len(loc.X)
+	if math.IsNaN(loc.F) {
+		// A NaN value can not be ordered: the sort of the vertices and the
+		// comparisons below would declare such a point the best vertex, or
+		// trip the check in replaceWorst. The objective is not defined
+		// there, treat the point as infinitely bad.
+		loc.F = math.Inf(1)
+	}
 	switch n.lastIter {
 	case nmInitialize:
 		n.values[n.fillIdx] = loc.F
